@@ -4,8 +4,8 @@ from xvlib import log
 from props.common import *
 from props.qcommon import *
 
-RECL_QUICK = [('HPs<3>', '_hp'), ('EBR', '_ebr'), ('LFRC', '_lfrc')]
-RECL_ALL = RECL_QUICK + [('HEs<3>', '_he'), ('NEBR', '_nebr'), ('DEBRA', '_debra'), ('QSBR', '_qsbr'), ('STAMP', '_stamp')]
+RECL_QUICK = [('HPs<3>', '_hp'), ('EBR', '_ebr'), ('LFRC', '_lfrc'), ('HEs<3>', '_he')]   # _he: era-based protection (a node must be unreachable when retired)
+RECL_ALL = RECL_QUICK + [('NEBR', '_nebr'), ('DEBRA', '_debra'), ('QSBR', '_qsbr'), ('STAMP', '_stamp')]
 def harnesses(tier):
     return [('uq', ('XV_RECL=%s' % r,) + (('XV_NO_KF',) if r == 'LFRC' else ()), False, sfx) for r, sfx in (RECL_ALL if tier == 'thorough' else RECL_QUICK)] + [('vyu', (), False, ''), ('uq', ('XV_RECL=GC',), False, '_gc')]
 PROPERTY_FILES = ['Properties_C07', 'Properties_C04_ram', 'Properties_C07_models']
@@ -26,6 +26,17 @@ def run(ctx):
     thorough = tier == 'thorough'
     Hs = ctx['H']
     run_corpus(ctx, Hs['uq_hp'], 'C07')
+    # corpus cases recorded on the hazard_eras harness (file name he-*.case): replayed there, and their programs re-explored
+    import os
+    cd = os.path.join(X.VERIF, 'corpus', 'C07')
+    for f in sorted(os.listdir(cd)) if os.path.isdir(cd) else []:
+        if f.startswith('he-') and f.endswith('.case') and 'uq_he' in Hs:
+            txt = open(os.path.join(cd, f)).read()
+            (st0, det0), _ = X.replay_case(Hs['uq_he'], txt, ctx['wd'])
+            if st0 != 0:
+                report_impl(ctx, st0, det0, txt, {'corpus': f, 'harness': 'uq_he'})
+            cfg0, prog0, _, _ = X.parse_case_text(txt)
+            do_search(ctx, Hs['uq_he'], [(cfg0, prog0, 'random', 1500, ctx['seed'] + k, ()) for k in range(2)], 'corpus:' + f[:-5], classify=lambda c, h, fd: {'harness': 'uq_he'})
     # ---- tie of the ramalhete model (its conservation / destructor theorems are part of this property's evidence)
     Hgc = Hs.pop('uq_gc')
     rcases = [({'q': 'ram', 'elem': 'ptr', 'epn': str(epn), 'retries': str(ret)}, queue_program(rng, 2 + k % 2, 3 + k)) for k, (epn, ret) in enumerate(((1, 0), (2, 1), (3, 1)))]
